@@ -1,6 +1,7 @@
 """C02 — periodic separation (dvect / dmag / System.dvect / System.dmag / displacement).
 
-Tie: correspondence between the Lean model (`Atomman.dvect`, `Atomman.dmag2` and the wrappers of
+Tie: (1) translator: the kernels, wrappers, System methods and displacement are regenerated from the current source
+(`translate()` -> Generated/DvectSource.lean) and proved equal to the model (Proofs/C02_Source.lean); (2) correspondence between the Lean model (`Atomman.dvect`, `Atomman.dmag2` and the wrappers of
 `Atomman/C02.lean`, run by `drv_c02`) and the real code rebuilt from the working tree, on identical
 exact inputs.  Exact comparison on the dyadic grid, derived tolerance plus the model's tie margin
 elsewhere.  Search: the property's own clauses on the real code with exact integer/Fraction
@@ -44,7 +45,8 @@ THEOREMS = [
     # round 5: API level (argument forms, flags, refusals) and end-to-end statements about the generated definitions
     'C02.dvectApi_eq_arr', 'C02.dvectApi_ok_iff', 'C02.dvectApi_type_iff', 'C02.dvectApi_flag_forms', 'C02.dmag2Api_eq',
     'C02.api_dvect_end_to_end', 'C02.api_dmag_end_to_end', 'C02.displacement_ok_iff', 'C02.api_displacement_end_to_end',
-    'C02.api_system_end_to_end', 'C02.pbcSetter_ok_iff',
+    'C02.api_system_end_to_end', 'C02.pbcSetter_ok_iff', 'C02.dvectApi_flat_eq_rows', 'C02.dvectApi_error_class',
+    'C02.World.disp_source', 'C02.World.sysDvect_source',
 ]
 PARTIAL = {}
 RULE = ('cells: diagonal, rotated/left-handed mutually orthogonal, LAMMPS-triclinic, general 3x3 (det != 0), strongly '
@@ -84,8 +86,16 @@ ASSUMPTIONS = [
     'length of the very row dvect returns (8 * 2^-53 on the square), compared in the correspondence for every pair',
     'a boolean mask of the right length selects the rows of its True entries (numpy): sent to the model as that index list',
     'numpy broadcasting / fancy indexing of atoms.pos is as documented (modelled by `select`/`broadcast`)',
+    'a Python object handed to a Cython `bint` parameter is converted by its truth value (pbc[k] = 2, -1, np.True_ are set '
+    'flags); a typed memoryview `const double[:,:]` refuses an array of another rank with ValueError (primitives `flagAt`, '
+    '`kernelCall` of the model; compared with the compiled code by the `api` op for every rank 0..3 and flag form)',
+    'np.asarray(x, dtype=float64) of ints / float32 / lists / tuples yields the same numbers (exact for the generated inputs)',
 ]
-TRUSTED = ['numpy indexing, broadcast_to and sqrt in the wrappers', 'exact integer oracle in harness/props/c02.py']
+TRUSTED = ['numpy indexing, broadcast_to and sqrt in the wrappers', 'exact integer oracle in harness/props/c02.py',
+           'translate() of harness/props/c02.py: the declaration stripper for the .pyx text (only `cdef` declaration syntax is '
+           'rewritten; loops, tests, formulas and calls are read from the ast) and the statement compiler; a mistranslation '
+           'goes unnoticed only if it coincides with the hand model, which is itself tied to the compiled code by the '
+           'correspondence']
 
 U48 = 2.0 ** -48
 ORTHO_BASES = [
@@ -1212,7 +1222,8 @@ def gen_history(rng, oracle=False):
         sy = sh.systems[si]
         if r < 0.22:
             if rng.random() < 0.35:
-                add({'do': 'pbcset', 'sys': si, 'pbc': gen_pbc(rng), 'form': rng.choice(['tuple', 'list', 'array'])})
+                add({'do': 'pbcset', 'sys': si, 'pbc': gen_pbc(rng),
+                     'form': rng.choice(['tuple', 'list', 'array', 'tuple', 'list', 'array', 'ints', 'truthy', 'npint', 'uint8', 'npbool'])})
             else:
                 ax = rng.randrange(3)
                 flag = (not sy['pbc'][ax]) if rng.random() < 0.8 else bool(rng.getrandbits(1))
@@ -3518,12 +3529,19 @@ MANIFEST = {
             'any cell with det != 0, whenever some image is shorter than half the smallest perpendicular width of the '
             'periodic axes. The finite lattice radius used by the search oracle is a theorem. The model is tied to the '
             'compiled code by an exact (bit for bit on dyadic grids times 2^k, k = -40..40) correspondence over am.dvect, '
-            'am.dmag, System.dvect/dmag, am.displacement and histories of in-place changes of Box/System objects.',
+            'am.dmag, System.dvect/dmag, am.displacement and histories of in-place changes of Box/System objects. '
+            'Round 5: the two Cython kernels (loop bounds, nesting, skipped triple, candidate formula, squared lengths, comparison, '
+            'replacement), the two wrappers (conversions, rank checks, broadcasting chain, flags, kernel call), System.dvect / '
+            'System.dmag, the pbc property and displacement are REGENERATED from the current source on every check '
+            '(Generated/DvectSource.lean) and proved equal to the model (17 gen_*_eq_model obligations), so the theorems are about '
+            'the code as it reads now; acceptance / refusal of the public entry points is characterised exactly (iff), flags count '
+            'by truth value only, and end-to-end theorems state the property clauses for the generated entry points.',
     'note': 'Trusted: Lean kernel + propext/Classical.choice/Quot.sound; the correspondence harness and its derived '
             'tolerance (2^-48 * input scale, tie margin computed by the model); numpy indexing/broadcast/sqrt. Floating '
             'point rounding is modelled, not verified (box_set(scale=True) is compared within a derived bound). Undefined '
             'behaviour of the unchecked memoryview for non-(n,3) input and of pbc with fewer than three flags is outside '
             'the model.',
-    'technique': 'Lean 4 theorems over a hand-written executable model (stateless + object heap) + differential '
-                 'correspondence incl. operation histories + exact lattice oracle',
+    'technique': 'Lean 4 theorems over an executable model (stateless + object heap) + translator (ast of the declaration-stripped '
+                 '.pyx and of the .py sources -> Lean, proved equal to the model) + differential correspondence incl. operation '
+                 'histories + exact lattice oracle',
 }
